@@ -6,7 +6,8 @@
   any other kind is a negative: the looked-up pair / multiplicity / table cell was altered so that the
   lookup relation is violated (`violated=lookup:..`); whatever the prover strategy, the outcome must not
   be an accepted proof.
-`c08replay`: fixed minimal negative (table {(1,10),(2,20)}, lookup of 2, claimed output 999).
+`c08replay`: fixed minimal negative (table {(1,10),(2,20)}, lookup of 2, claimed output 999, running sum started from a
+  non-zero value): the regression case of the defect fixed in repo commit bfbd0f1 - must be rejected under every configuration.
 `lkc`: check_lookup_constraints recomputed with Python integers (Fp2 arithmetic).
 """
 P = 2**64 - 2**32 + 1
@@ -51,7 +52,7 @@ def lkc_spec(a):
     looked = [add2(wires[3 * s], mul2(base(dA), wires[3 * s + 1])) for s in range(nlut)]
     looking = [add2(wires[2 * s], mul2(base(dA), wires[2 * s + 1])) for s in range(nlu)]
     lookupc = [add2(wires[3 * s], mul2(base(dB), wires[3 * s + 1])) for s in range(nlut)]
-    out = [mul2(sels[LAST_LDC], zx[nsldc - 1]), mul2(sels[INIT_SRE], zx[0]), mul2(sels[INIT_SRE], z_re)]
+    out = [mul2(sels[LAST_LDC], zx[nsldc - 1]), mul2(sels[INIT_SRE], zx[nsldc - 1]), mul2(sels[INIT_SRE], z_re)]
     for r in range(START_END, len(sels)):
         t = luts[r - START_END]
         rows = ceil_div(len(t), nlut)
